@@ -132,8 +132,14 @@ for k, v in ADD.items():
 # additions of the fifth session
 ADD5 = {
  "C01": " from_path: the path-taking entry points (start_file_from_path / add_directory_from_path: only Normal components, joined by '/') and set_comment(String) against a model of their documentation; is_dir()/is_file() follow the name.",
+ "C02": " After a refused finish() (over-long comment) the caller sets a shorter comment and calls finish() again: success then means a valid archive with exactly the model's entries. raw_straddle: raw copies of hand-laid-out sparse sources whose sizes lie on different sides of 4 GiB.",
+ "C07": " Entries carry any MS-DOS attribute byte next to their Unix mode, or are made by MS-DOS (mode derived from the DOS attributes).",
+ "C08": " subsets also vary the ZIP64 end record's extensible data sector (size field 44+n) and the local-header layout of data-descriptor entries (zeros / ZIP64 markers / real sizes); append_large_prefixed: append onto > 4 GiB foreign bases behind prepended data with archive-relative offsets.",
+ "C09": " Observations include file comments, central extra data and the archive-level values (entry count, offset(), archive comment).",
+ "C10": " unsupported: data-descriptor entries of streaming-ZIP64 producers (0xFFFFFFFF markers, zeroed ZIP64 record) must be refused; descriptor entries that also carry their sizes in the header are refused or served with exactly the right data.",
+ "C13": " large_bases: hand-laid-out sparse foreign bases with entries / header offsets beyond 4 GiB, bare and behind prepended data, one append round.",
  "C05": " A stack overflow (inputs rich in record signatures run on a 1 MiB-stack thread) is diagnosed like any other abort: the fatal-signal dump runs on the alternate signal stack.",
- "C11": " Injected failures carry different io::ErrorKinds: Other (one-shot and sticky), UnexpectedEof (one-shot and sticky) and Interrupted (one-shot; std's retry loops swallow it, the result must then be the failure-free one).",
+ "C11": " Injected failures carry different io::ErrorKinds: Other (one-shot and sticky), UnexpectedEof (one-shot and sticky) and Interrupted (one-shot; std's retry loops swallow it, the result must then be the failure-free one). Archives with encrypted entries are swept a second time with a persistent caller (5-byte reads, read() called again after an error). Observations include file comments, central extra data and archive-level values.",
  "C18": " Offsets are also applied at the very ends of the time crate's range (years -9999, 0, 1, 9999), where the UTC reading may not be representable: still no panic.",
  "C20": " Scripts also open entries raw and with the right / a wrong / an empty password (plain and ZipCrypto entries), and query the accessors of an open entry again after other handles have acted (e.g. a refused open of the same entry on a sibling).",
 }
